@@ -408,3 +408,9 @@ Definition for_groups (f : gctx -> list call -> bool) (s : snapshot) (obs : list
   forallb (fun nc => match find_group s (fst nc) with Some g => f (mk_ctx s g) (snd nc) | None => false end) obs.
 
 Definition wf_snapshot (s : snapshot) : bool := forallb (fun g => wf_ctx (mk_ctx s g)) (s_groups s).
+
+(* ---------- C05 state anchor: the cached node size is the first listed node's allocatable of the last non-empty scan ---------- *)
+Definition cache_pair (c : qty * qty) : Z * Z := (q_milli (fst c), q_value (snd c)).
+Definition check_C05_cache (x : gctx) (pre post : gstate) : bool :=
+  let want := match x_nodes x with n :: _ => first_alloc n | [] => g_cache pre end in
+  pair_eqb Z.eqb Z.eqb (cache_pair (g_cache post)) (cache_pair want).
